@@ -106,7 +106,15 @@ func implRows(w *model.World) map[uint32]map[string]model.Val {
 	return out
 }
 
-func (sc c08Scenario) instance() *eng.SchedInstance {
+func (sc c08Scenario) instance() *eng.SchedInstance { return sc.build(false) }
+
+// truncated is the C13 variant: the same scenario, but EVERY clean cut of the
+// resulting snapshot stream (each s2 frame boundary: what a crash while the state or
+// the log tail was being written leaves behind) is restored; each must fail or give,
+// per block, a prefix state of the commits applied to that block.
+func (sc c08Scenario) truncated() *eng.SchedInstance { return sc.build(true) }
+
+func (sc c08Scenario) build(cuts bool) *eng.SchedInstance {
 	cols := []model.ColDef{{Name: "a", Kind: "int"}, {Name: "b", Kind: "int"}, {Name: "s", Kind: "string"}}
 	var sw *sworld
 	if sc.keyed {
@@ -147,6 +155,9 @@ func (sc c08Scenario) instance() *eng.SchedInstance {
 			}
 			if snap.err != nil {
 				return "snapshot-error", []eng.Violation{{Assert: "snapshot/succeeds", Witness: "concurrent writers make the snapshot call fail", Detail: snap.err.Error()}}
+			}
+			if cuts {
+				return c13Cuts(sw, snap.buf.Bytes(), cols, names, nW)
 			}
 			t := w.Twin(model.Config{}, true)
 			defer t.Close()
@@ -300,4 +311,104 @@ func init() {
 			return schedUnits("C08", scs)
 		},
 	})
+}
+
+// prefixStates returns, for one block, the rendered model state after each prefix of
+// the commits applied to it (apply order = emission order at the recording logger).
+func prefixStates(sw *sworld, cols []model.ColDef, blk uint32, nW int) (states []string, order []int) {
+	w := sw.w
+	kinds := func(c string) *model.KindDesc { return w.M.Col(c) }
+	for i, c := range w.Commits {
+		if uint32(c.Chunk) == blk && i < len(w.Emitters) && w.Emitters[i] >= 0 && w.Emitters[i] < nW {
+			order = append(order, w.Emitters[i])
+		}
+	}
+	m := w.M.Clone()
+	states = []string{renderBlock(cols, modelRows(m), blk, kinds)}
+	for _, th := range order {
+		w.ApplyPendingTo(m, &sw.threads[th].p, map[uint32]bool{blk: true})
+		states = append(states, renderBlock(cols, modelRows(m), blk, kinds))
+	}
+	return states, order
+}
+
+func c13Cuts(sw *sworld, data []byte, cols []model.ColDef, names []string, nW int) (string, []eng.Violation) {
+	w := sw.w
+	kinds := func(c string) *model.KindDesc { return w.M.Col(c) }
+	var vs []eng.Violation
+	cutsDone, restoredOK := 0, 0
+	bounds := s2FrameBoundaries(data)
+	for _, n := range bounds {
+		if n <= 0 || n > len(data) {
+			continue
+		}
+		cutsDone++
+		t := w.Twin(model.Config{}, true)
+		var err error
+		var pan any
+		func() {
+			defer func() { pan = recover() }()
+			err = t.C.Restore(bytes.NewReader(data[:n]))
+		}()
+		if pan != nil {
+			t.Poisoned = true
+			vs = append(vs, eng.Violation{Assert: "no-panic", Witness: "Restore panicked on a truncated stream", Detail: fmt.Sprintf("cut at %d of %d: %v", n, len(data), pan)})
+			continue
+		}
+		if err != nil {
+			t.Close()
+			continue
+		}
+		restoredOK++
+		restored := implRows(t)
+		t.Close()
+		for _, blk := range []uint32{0, 1} {
+			states, order := prefixStates(sw, cols, blk, nW)
+			got := renderBlock(cols, restored, blk, kinds)
+			ok := false
+			for _, st := range states {
+				if st == got {
+					ok = true
+				}
+			}
+			if !ok {
+				// the recorded reservation finding of C08 shows here too: empty live rows
+				wit := "a snapshot stream cut at a frame boundary restores without error to a block state that is no prefix of its commits"
+				if onlyExtraEmptyInserted(sw, restored, blk, states, cols, kinds) {
+					wit = "restored block holds an empty live row for an insert that had reserved its offset but not committed"
+				}
+				var ord []string
+				for _, th := range order {
+					ord = append(ord, names[th])
+				}
+				vs = append(vs, eng.Violation{Assert: "restore/prefix", Witness: wit,
+					Detail: fmt.Sprintf("cut at byte %d of %d (frame boundary), block %d: commits applied in order %v; restored rows {%s}; prefix states: %s", n, len(data), blk, ord, got, strings.Join(states, " | "))})
+			}
+		}
+	}
+	return fmt.Sprintf("cuts=%d restored-without-error=%d", cutsDone, restoredOK), vs
+}
+
+// onlyExtraEmptyInserted: the restored block equals some prefix state once the empty
+// rows sitting on offsets handed to the scenario's inserts are ignored.
+func onlyExtraEmptyInserted(sw *sworld, restored map[uint32]map[string]model.Val, blk uint32, states []string, cols []model.ColDef, kinds func(string) *model.KindDesc) bool {
+	stripped := map[uint32]map[string]model.Val{}
+	n := 0
+	for off, row := range restored {
+		if off>>14 == blk && len(row) == 0 && isInsertedBy(sw, off) {
+			n++
+			continue
+		}
+		stripped[off] = row
+	}
+	if n == 0 {
+		return false
+	}
+	got := renderBlock(cols, stripped, blk, kinds)
+	for _, st := range states {
+		if st == got {
+			return true
+		}
+	}
+	return false
 }
